@@ -256,14 +256,18 @@ def oracle(seq, outs):
             return i, f"unexpected outcome {o}"
         # still serves: the probes answer as a healthy node in this phase does
         pr = dict(x.split("=") for x in g[1:] if "=" in x and not x.startswith("#"))
+        for k, v in pr.items():
+            if v.startswith("panic:"):
+                return i, (f"after the request, the probe '{k}' (a well-formed request of a healthy peer/operator) panics in {v[6:]}"
+                           + ("; DKGStatus is served by the control listener, which has no recovery interceptor: the process would die" if k == "st" else ""))
         if f[0] in ("packet", "bcast", "status"):
             want_st = "err" if phase in ("closed", "closedx") else "ok"
-            if pr.get("lock") != "free" or pr.get("st") != want_st or pr.get("pk") != "err" or pr.get("bc") != "err":
+            if pr.get("lock") != "free" or pr.get("st") not in (want_st, "-") or pr.get("pk") not in ("err", "-") or pr.get("bc") not in ("err", "-"):
                 return i, f"after the request the node no longer answers the probes as before: {out}"
         else:
             want_ci = "err" if phase == "nodkg" else "ok"
             want_pb = "ok" if phase == "running" else "err"
-            if pr.get("bplock") != "free" or pr.get("hlock") != "free" or pr.get("ci") != want_ci or pr.get("pb") != want_pb:
+            if pr.get("bplock") != "free" or pr.get("hlock") != "free" or pr.get("ci") not in (want_ci, "-") or pr.get("pb") not in (want_pb, "-"):
                 return i, f"after the request the node no longer answers the probes as before: {out}"
     return None
 
@@ -293,7 +297,7 @@ def contained_pairs(all_ops_outs):
 
 def run_impl(lines, seed, timeout=900, confirm=None):
     """confirm: seconds a call that missed the 5 s watchdog is given before it is declared hung (default 15)"""
-    env = dict(os.environ, GOMEMLIMIT="6GiB")
+    env = dict(os.environ, GOMEMLIMIT="6GiB", GOMAXPROCS="4")
     args = ["dispatch", str(seed)] + ([str(confirm)] if confirm is not None else [])
     import subprocess
     try:
@@ -346,11 +350,12 @@ def shrink(seq, idx, seed):
     return cur
 
 
-def explore(ctx, res):
-    res.level = "partial"
+def explore_tier(ctx, res, tier):
+    res.cov["explanation"] = ("PARTIAL: the lock discipline and the listener facts are proved on relations regenerated from the source; the request-level theorems are about a "
+                              "hand-derived model whose agreement with the real handlers is sampled on a finite request lattice (sequential requests, one DKG world); Go-level panics or blocking "
+                              "the model does not predict would only be found by that run. Two genuine defects are known findings (see known_findings.json); the HTTP server is not exercised.")
     rng = ctx["rng"]
     seed = ctx["seed"]
-    tier = "thorough" if ctx["deep"] else ctx["tier"]
     seqs = []        # (tag, [lines])
     corpus = []
     for fpath in sorted(glob.glob(os.path.join(core.VERIF, "corpus", ID, "*.json"))):
@@ -401,7 +406,8 @@ def explore(ctx, res):
         if why is not None:
             i, msg = why
             rep = {"engine": "dispatch", "kind": "impl-violates", "ops": ops[: i + 1], "observed": outs[: i + 1], "oracle": msg, "corpus": name}
-            if sig:
+            if sig and i == len(ops) - 1:
+                # the known finding is this witness failing at its last op (the overflowing bundle), nothing earlier
                 res.report(sig, rep)
             else:
                 res.add_violation(rep)
@@ -415,6 +421,13 @@ def explore(ctx, res):
             else:
                 validated += 1
 
+    if violated:
+        # a corpus witness already fails: that is the replay; no need to spend the exploration budget
+        res.cov["evaluations"] = total
+        res.cov["rule"] = "stopped after a failing corpus witness"
+        res.cov["samples"] = [{"corpus": name, "ops": c["ops"]} for name, c in corpus[:2]]
+        res.cov["distribution"] = dist
+        return
     # ---- generated sequences: the implementation runs are independent processes, run them side by side
     with ThreadPoolExecutor(max_workers=min(8, os.cpu_count() or 4)) as pool:
         runs = list(pool.map(lambda ts: run_impl(ts[1], seed), seqs))
@@ -429,8 +442,11 @@ def explore(ctx, res):
                                "observed": outs[-3:], "oracle": f"the harness process died while serving op {seq[min(k, len(seq) - 1)]!r}: an uncontained panic or fatal error ({err[-300:]})"})
             violated = True
             break
+        moved = False   # has a valid proposal / execute packet moved the node out of the sequence's initial phase
         for op, out in zip(seq, outs):
             f = op.split()
+            if f[0] == "packet" and f[7] in ("prop.valid", "exec.valid") and f[6] == "tpl" and out.startswith("ok"):
+                moved = True
             dist["ops_by_kind"][f[0]] = dist["ops_by_kind"].get(f[0], 0) + 1
             if len(f) > 1 and f[0] not in ("phase", "bphase"):
                 dist["layers"][f[1]] = dist["layers"].get(f[1], 0) + 1
@@ -441,7 +457,8 @@ def explore(ctx, res):
                     dist["panic_sites"][o[6:]] = dist["panic_sites"].get(o[6:], 0) + 1
                 if cls != "err":
                     nontriv.add((seq[0], op))
-                triples.append((phase, op, out))
+                if not moved:
+                    triples.append((phase, op, out))
         why = oracle(seq, outs)
         if why is not None:
             i, msg = why
@@ -480,6 +497,42 @@ def explore(ctx, res):
                        "BroadcastDKG and DKGStatus likewise; random histories along fresh→proposed and joined→executing; beacon side per phase (running, before DKG, stopped) × layer "
                        "(Handler / beacon.SyncChain direct, BeaconProcess, DrandDaemon, gRPC): PartialBeacon round × partial signature × previous signature classes, SyncChain, PublicRand(Stream), "
                        "ChainInfo, GetIdentity, Status × metadata {nil, id × chain hash × node version}. Every call under a 5 s watchdog with recover, followed by lock probes (TryLock) and "
-                       "probe requests on the same and on other endpoints. evaluations = op lines (each 1 call + 3–4 probes); non-trivial = distinct (phase, op) whose outcome is not a plain error")
+                       "probe requests on the same and on other endpoints. evaluations = op lines (each 1 call + lock probes; request probes after every non-error outcome and every 4th op); non-trivial = distinct (phase, op) whose outcome is not a plain error")
     res.cov["samples"] = samples
     res.cov["distribution"] = dist
+
+
+def replay(ctx, res, path):
+    """./check C14 --replay f : re-run the ops of a replay file on a fresh harness and re-evaluate the oracle"""
+    r = json.load(open(path))
+    ops = r["ops"]
+    if ops and not ops[0].startswith(("phase", "bphase")):
+        ops = (["bphase running"] if ops[0].split()[0] in ("partial", "sync", "pubrand", "pubstream", "chaininfo", "identity", "pstatus", "tarpit") else ["phase fresh"]) + ops
+    rc, outs, err = run_impl(ops, ctx["seed"], 600)
+    outs = [strip(o) for o in outs]
+    res.cov["evaluations"] = len(ops)
+    res.cov["samples"] = [{"op": o, "impl": x} for o, x in zip(ops, outs)]
+    res.cov["rule"] = "replay of " + path
+    if rc != 0 or len(outs) < len(ops):
+        res.add_violation({"engine": "dispatch", "kind": "impl-violates", "ops": ops[: len(outs) + 1], "observed": outs, "oracle": "the harness process died: " + err[-300:]})
+        return
+    why = oracle([o for o in ops if not o.startswith("tarpit")], [x for o, x in zip(ops, outs) if not o.startswith("tarpit")])
+    if why is not None:
+        i, msg = why
+        rep = {"engine": "dispatch", "kind": "impl-violates", "ops": ops[: i + 1], "observed": outs[: i + 1], "oracle": msg}
+        if r.get("signature"):
+            res.report(r["signature"], rep)
+        else:
+            res.add_violation(rep)
+
+
+def explore(ctx, res):
+    """when a proof / tie / build step broke (ctx['deep']) search with the quick budget first and escalate to the thorough
+    one only if that found no failing input"""
+    if ctx.get("replay"):
+        return replay(ctx, res, ctx["replay"])
+    tiers = ["quick", "thorough"] if ctx["deep"] and ctx["tier"] == "quick" else ["thorough" if ctx["deep"] else ctx["tier"]]
+    for t in tiers:
+        explore_tier(ctx, res, t)
+        if any(found for _, found in res.violations):
+            return
